@@ -128,9 +128,11 @@ class Secret(object):
         else:
             if stx:
                 self.lines.append((5, '%s %s' % (t[5], t[6]), 1))
+            # (the spacing around the literal differs from the secret line 120 `S9$="..":REM ..`: with the same
+            # context a 4-byte window `$="x` collided whenever both tokens began with the same letter)
             # line 10 assigns a string variable from a literal (its VALUE may be seen: variable contents are
             # out of scope; any other program byte seen through it is a disclosure) and ends the run
-            self.lines += [(10, 'V9$="%s":END' % t[7], 10), (20, 'REM -pokehere', 11), (30, 'REM -scaffold30', 12),
+            self.lines += [(10, 'V9$= "%s" :END' % t[7], 10), (20, 'REM -pokehere', 11), (30, 'REM -scaffold30', 12),
                            (40, 'REM -scaffold40', 13)]
             self.lines += secret
             self.lines.append((9000, 'E%=ERR:RESUME NEXT:COMMON V9$', 14))
@@ -370,6 +372,10 @@ class C16(core.Check):
             {'k': 'd', 'hide': 1, 'stx': 0, 'seed': 23, 'ev': [L, ['chainall', [0, 0], 0]]},
             {'k': 'd', 'hide': 1, 'stx': 0, 'seed': 24, 'ev': [L, ['chainall', [1, 1], 0]]},
             {'k': 'd', 'hide': 1, 'stx': 0, 'seed': 25, 'ev': [L, ['chainall', [0, 2], 1], L, ['chainall', [0, 3], 0]]},
+            # false alarm of the thorough tier (window `$="x` shared by line 10 and the secret line 120)
+            {"k": "d", "hide": 0, "stx": 0, "seed": 129432130, "ev": [["load", "Q", 0], ["llist", 0, 1],
+                                                                    ["storedel", 13, 0], ["pokeother", 0, 0],
+                                                                    ["chain", "N", 0], ["edit", 10, 0]]},
             # witnesses of the fixed defects D16a (READ) and D16b (RENUM)
             {'k': 'd', 'hide': 1, 'stx': 0, 'seed': 8, 'ev': [L, ['read', 0, 0]]},
             {'k': 'd', 'hide': 1, 'stx': 0, 'seed': 9, 'ev': [L, ['renum', 0, 0]]},
